@@ -20,6 +20,7 @@ VERIF = os.path.dirname(os.path.dirname(os.path.abspath(__file__)))
 
 PROVED, REFUTED, UNDECIDED, ERROR = "proved", "refuted", "undecided", "error"
 MAX_PRINT = 25
+MAX_REPLAY_FILES = 100
 
 
 @dataclass
@@ -442,6 +443,9 @@ def finish(rep: Report, level_if_clean="proof"):
         os.makedirs(rdir, exist_ok=True)
         fn = re.sub(r"[^A-Za-z0-9_.-]+", "_", o.name)[:150] + ".json"
         rpath = os.path.join(rdir, fn)
+        if len(violations) >= MAX_REPLAY_FILES:
+            violations.append((o, os.path.join(rdir, "(not written: more than %d refuted obligations; see evidence)" % MAX_REPLAY_FILES)))
+            continue
         with open(rpath, "w") as f:
             json.dump(
                 {
